@@ -322,6 +322,9 @@ def run_c08(pid, tier):
         hist = [h for h in hist if len(set(py_ident(op[2]) if op[0] == "A" else hashed_ident(op[1]) for op in h)) == len(h)]
     for nm in ["é.css", "a\u200bb.txt", "x\u0300.png", "\U0001F600.js", "日本.語", "a\tb.c", "a\nb.c", "tab\x7f.x", "q\"uo.txt", "d\\q.bin", "{x}.{y}", "\ufeffbom.a"]:
         hist.append([("D", nm, b"1"), ("A", "p/" + nm, "to/" + nm, b"2"), ("F", "z/" + "f" + nm, b"3")])
+    # names, paths and contents holding the placeholders of a format / replace based generator ({name}, {mime}, {content}, {path}, {rust_name}, {}, {0}, {{, }})
+    for k, ph in enumerate(["{name}", "{mime}", "{content}", "{path}", "{rust_name}", "{url_name}", "{}", "{0}", "{{", "}}", "{suffix}"]):
+        hist.append([("D", "by-%s.t" % ph, ("data " + ph + " end").encode()), ("A", "src/x%d.js" % k, "lib/%s/tpl.js" % ph, b"a"), ("F", "d%s/x%sy.txt" % (ph, ph), ph.encode())])
     for _ in range(60 if tier == "quick" else 600):
         hist.append(distinct_history(rng, rng.randint(1, 5)))
     # names of one shape that differ only in their non-ASCII letters: distinct items, distinct identifiers
@@ -707,6 +710,8 @@ def run_c20(pid, tier):
                     while i < len(lit) and lit[i] in b" \t\n\r": i += 1
                     continue
                 raise ValueError(lit[i:i + 6])
+            # rustc normalises CR LF to LF when it loads a source file, inside literals too
+            if c == 13 and lit[i + 1:i + 2] == b"\n": i += 1; continue
             out.append(c); i += 1
         return bytes(out)
     multi = []
@@ -797,6 +802,8 @@ def run_c20(pid, tier):
     special = []
     for nm in ["bl\u00e5b\u00e4r.png", "\u65e5\u672c.svg", "caf\u00e9 menu.pdf"]:
         special.append(([("D", nm, nm.encode())], 'a{b:static_name("%s")}' % nm, nm))
+    # a stylesheet with DOS line ends and a custom property spanning lines: the only construct the compressed output copies verbatim
+    special.append(([("D", "dos.png", b"dos")], ":root{--shadow: 0 0 1px red,\r\n    0 0 2px blue;}\r\na{b:static_name(\"dos.png\")}\r\n", "dos.png"))
     for tail in ("one.png", "two.png"):
         special.append(([("D", tail, tail.encode())], "".join("r%d{margin:%dpx;padding:%dpx;color:#%06x}" % (k, k, k + 1, k) for k in range(2200)) + 'z{u:static_name("%s")}' % tail, tail))
     lines = [impl_line(h) + " W:%s:%s S:%s" % (hx("scss/big.scss"), hx(scss.encode()), hx("scss/big.scss")) for h, scss, _ in special]
